@@ -422,10 +422,14 @@ func runRecvStream(w *bufio.Writer, seed uint64, n int, _ []string) {
 		var term string
 		var nt bool
 		var perr any
-		if err := c03Bubble(func() {
-			defer func() { perr = recover() }()
-			term, nt = rsRun(w, window, ops)
-		}); err != nil || perr != nil {
+		var err error
+		c03Watchdog(w, "recvstream", func() string { return fmt.Sprintf("window=%d %s", window, rsOpsString(ops)) }, func() {
+			err = c03Bubble(func() {
+				defer func() { perr = recover() }()
+				term, nt = rsRun(w, window, ops)
+			})
+		})
+		if err != nil || perr != nil {
 			fmt.Fprintf(w, "MONFAIL\trecvstream/panic\t%v %v\twindow=%d %s\n", err, perr, window, rsOpsString(ops))
 			return
 		}
@@ -435,6 +439,24 @@ func runRecvStream(w *bufio.Writer, seed uint64, n int, _ []string) {
 		}
 		fmt.Fprintf(w, "CASE %d %s\n", nti, term)
 		dist[bucket]++
+	}
+	// (0) fixed table, on every seed: Peek across the partly read current frame + >= 3 further queued entries
+	for _, sizes := range [][]int64{{64, 64, 64, 64, 64}, {43, 1, 129, 4, 127}, {200, 4, 4, 4, 300}} {
+		var ops []rsOp
+		bounds := []int64{0}
+		for _, sz := range sizes {
+			bounds = append(bounds, bounds[len(bounds)-1]+sz)
+		}
+		for i := len(sizes) - 1; i >= 0; i-- {
+			ops = append(ops, rsOp{kind: 0, off: bounds[i], n: sizes[i], fin: i == len(sizes)-1})
+		}
+		total := bounds[len(sizes)]
+		ops = append(ops, rsOp{kind: 3, n: bounds[3]}, rsOp{kind: 2, n: 10}) // peek before anything is dequeued, then read part of frame 0
+		for k := 2; k <= len(sizes); k++ {
+			ops = append(ops, rsOp{kind: 3, n: bounds[k] - 10})
+		}
+		ops = append(ops, rsOp{kind: 3, n: total - 11}, rsOp{kind: 3, n: total}, rsOp{kind: 2, n: total}, rsOp{kind: 2, n: 1})
+		emit(total+50, ops, "table-peek")
 	}
 	// (a) exhaustive small universe: 2 cells, frames (with/without FIN where consistent), read sizes, peek, reset, cancel
 	cells := []int64{64, 129}
